@@ -1,10 +1,12 @@
 CHECK = {
-    "gen": [{"pkg": "extract_c11", "out": "lean/ClusterVerif/Gen/C11.lean"}],
+    "gen": [{"pkg": "extract_c11", "out": "lean/ClusterVerif/Gen/C11.lean"},
+            {"pkg": "extract_c11b", "out": "lean/ClusterVerif/Gen/C11Send.lean"}],
     "suites": [suite("routes", "c11", 6000, 250000, stdin=True),
                suite("client", "c11", 2500, 60000, stdin=True, args=["-suite", "client"]),
                suite("add", "c11", 1500, 40000, stdin=True, args=["-suite", "add"])],
     "lean_sources": ["ClusterVerif/Model/Pin.lean", "ClusterVerif/Model/C11.lean", "ClusterVerif/Spec/C11.lean",
-                     "ClusterVerif/Gen/C11.lean", "ClusterVerif/Lemmas/C11.lean"],
+                     "ClusterVerif/Gen/C11.lean", "ClusterVerif/Lemmas/C11.lean",
+                     "ClusterVerif/Model/C11Send.lean", "ClusterVerif/Gen/C11Send.lean"],
     "rule": "every case carries the server configuration sv=<Tracing><HTTPLogFile><TLS> (8 configurations, servers built on demand; a systematic sweep per non-default configuration, 1/3 of the random cases); routes suite: a fixed systematic sweep of 14.8k requests (every route template and 14 unknown paths x 7 methods x each path part valid/invalid x 47 credential situations = no credentials configured / two users / one user x the header grid {none, not base64, other scheme, no colon, known user x right|wrong|empty|other user's password, unknown user x configured|arbitrary|empty password, empty user x empty|right password, user name equal to a password, lower-case scheme}; "
             "every pin option valid / empty / each invalid variant and shadowing combinations on the 7 routes that parse pin options; local/filter values; "
             "JSON bodies; trailing-slash, unclean paths, CORS preflights; the three cluster answers) followed by seeded random requests "
